@@ -318,7 +318,12 @@ fn fill_examples(rep: &mut Report, sh: &Shared) {
 
 // ------------------------------------------------------------------------------------------------ main
 
-fn sub_ctx(ctx: &Ctx, secs: f64) -> Ctx { let mut c = ctx.clone(); c.start = std::time::Instant::now(); c.budget = std::time::Duration::from_secs_f64(secs.max(0.5)); c }
+/// a share of the total budget for one workload, never more than what is left of the whole run
+fn sub_ctx(ctx: &Ctx, share: f64) -> Ctx {
+    let total = ctx.budget.as_secs_f64();
+    let left = (total - ctx.elapsed_s()).max(1.0);
+    let mut c = ctx.clone(); c.start = std::time::Instant::now(); c.budget = std::time::Duration::from_secs_f64((total * share).min(left)); c
+}
 
 fn main() {
     let args: Vec<String> = std::env::args().collect();
@@ -339,13 +344,13 @@ fn main() {
     let out_dir = ctx.out_dir.clone();
     let hang = std::thread::spawn(move || hang_canary(&out_dir));
     if let Err(e) = maps::self_test(ctx.seed, 30) { harness_error(&format!("maps self test: {e}")); }
-    let total = ctx.budget.as_secs_f64();
-
     // ---- 1. hostile hand-built inputs: ladders, self-references, limit values (one case per family)
+    let t_gen = std::time::Instant::now();
     let groups = all_specials(thorough);
+    rep.add("special_generation_ms", t_gen.elapsed().as_millis() as u64);
     let families: Vec<String> = groups.iter().map(|g| g.0.clone()).collect();
     let groups = Mutex::new(groups.into_iter().map(Some).collect::<Vec<_>>());
-    run_cases(&sub_ctx(&ctx, total * 0.3), &replay, &mut rep, "special", families.len() as u64, |_rng, rep, case| {
+    run_cases(&sub_ctx(&ctx, 0.5), &replay, &mut rep, "special", families.len() as u64, |_rng, rep, case| {
         let Some((family, items)) = groups.lock().unwrap()[case as usize].take() else { return };
         let (seeds, jobs) = special_jobs(&family, items);
         rep.count(&format!("special_families.{}", family.split('.').next().unwrap_or("")));
@@ -355,7 +360,7 @@ fn main() {
 
     // ---- 2. descriptor strings
     let n_desc = ctx.tier.pick(60, 600);
-    run_cases(&sub_ctx(&ctx, total * 0.1), &replay, &mut rep, "descriptor", n_desc, |rng, rep, case| {
+    run_cases(&sub_ctx(&ctx, 0.3), &replay, &mut rep, "descriptor", n_desc, |rng, rep, case| {
         let cfg = maps::GenCfg::default();
         let seed: String = if (case as usize) < textmut::DESC_SEEDS.len() { textmut::DESC_SEEDS[case as usize].to_string() }
             else if rng.bool() { maps::gen::method_desc(rng, &cfg, &["a/B".to_string(), "C$D".to_string()]) } else { maps::gen::field_desc(rng, &cfg, &["a/B".to_string()]) };
@@ -367,7 +372,7 @@ fn main() {
 
     // ---- 3. text formats: seeds from the mapping generators through the harness' own emitters, token-level mutations
     let n_text = ctx.tier.pick(48, 1600);
-    run_cases(&sub_ctx(&ctx, total * 0.2), &replay, &mut rep, "text", n_text, |rng, rep, case| {
+    run_cases(&sub_ctx(&ctx, 0.4), &replay, &mut rep, "text", n_text, |rng, rep, case| {
         let fmt = [Fmt::Tiny, Fmt::TinyDiff, Fmt::Enigma, Fmt::Nests][(case % 4) as usize];
         let mut cfg = if rng.chance(1, 3) { maps::GenCfg::tame() } else { maps::GenCfg::default() };
         cfg.max_classes = 3; cfg.big = (0, 1);
@@ -396,7 +401,7 @@ fn main() {
         run_jobs(&sb, rep, &sh, vec![bytes], jobs_from(Parser::ReadClass, 0, 0, muts), source);
     };
     let n_gen = ctx.tier.pick(48, 1400);
-    run_cases(&sub_ctx(&ctx, total * 0.2), &replay, &mut rep, "class.generated", n_gen, |rng, rep, case| {
+    run_cases(&sub_ctx(&ctx, 0.5), &replay, &mut rep, "class.generated", n_gen, |rng, rep, case| {
         let cfg = cf::gen::GenCfg { max_fields: 2, max_methods: 3, max_insns: if case % 4 == 0 { 6 } else { 24 }, ..Default::default() };
         let m = cf::gen::gen_class(rng, &cfg);
         let layout = if case % 3 == 0 { cf::emit::Layout::canonical() } else { cf::emit::Layout::random(rng.next_u64()) };
@@ -408,8 +413,7 @@ fn main() {
     Rng::new(common::rng::case_seed(ctx.seed, "C16/corpus-order", 0)).shuffle(&mut order);
     if !thorough { order.sort_by_key(|i| corpus[*i].1.len() > 3000); } // quick: small classes first (complete enumeration of each one that is started)
     let n_corpus = ctx.tier.pick(10.min(corpus.len()), corpus.len()) as u64;
-    let left = (total - ctx.elapsed_s()).max(2.0);
-    run_cases(&sub_ctx(&ctx, left), &replay, &mut rep, "class.corpus", n_corpus, |rng, rep, case| {
+    run_cases(&sub_ctx(&ctx, 1.0), &replay, &mut rep, "class.corpus", n_corpus, |rng, rep, case| {
         let (name, bytes) = &corpus[order[case as usize]];
         rep.seen("corpus_classes", name);
         class_case(rep, rng, bytes.clone(), &format!("corpus {name}"));
